@@ -52,6 +52,8 @@ AllTrue(s) == \A i \in 1..Len(s) : s[i]
 AllFalse(s) == \A i \in 1..Len(s) : ~s[i]
 \* the law
 C12Judge == LET v == Verdict(Rec) IN
+            \* a rigid motion of a shape is a shape: finite coordinates and radii
+            /\ ~Rec.nonfinite
             /\ (v = "overlap" => AllTrue(Rec.answers))
             /\ (v = "apart" => AllFalse(Rec.answers))
 \* one line per record for the coverage count
